@@ -56,6 +56,12 @@ def oracle_c04(tr: Trace):
             is_nak = st.pdu is not None and st.pdu["kind"] == codec.K_NAK
             if st.ob["exc"] or is_nak:
                 continue
+            if st.pdu is not None and st.pdu["kind"] == codec.K_FIN:
+                # a Finished PDU implies that the EOF was received: it ends the wait for the ACK as the ACK itself would
+                if f["step"] == 7:
+                    raise Failure(f"C04 a Finished PDU did not end the EOF positive-ACK procedure (op {st.i})")
+                silent_expiries = 0
+                continue
             if is_ack:
                 if st.pdu["acked"] == 4 and f["step"] == 7:
                     raise Failure(f"C04 ACK(EOF) did not end the EOF positive-ACK procedure (op {st.i})")
